@@ -330,8 +330,15 @@ static void modeHist(const Case& c)
         for (size_t bi = 0; bi < blocks.size() && bad < 0; bi++) {
             Cfg k = tupleCfg(c, blocks[bi].first);
             applyOptions(*s, k);
-            s->setup();
-            for (int n = 0; n < blocks[bi].second; n++) {
+            if (k.exact) {
+                Problem pe = k.problem();
+                s->setSolution(std::move(pe.exact));
+            }
+            else
+                s->setSolution(nullptr);
+            if (blocks[bi].second >= 0)
+                s->setup();
+            for (int n = 0; n < std::abs(blocks[bi].second); n++) {
                 s->solve();
                 Obs o = observe(*s, k);
                 trace += "|" + hiddenState(*s);
